@@ -218,6 +218,7 @@ theorem apply_reachF (c : Cfg σ) (s : State σ) (op : Op) (hop : op.noFinalize 
           obtain ⟨a, b, c', d, f⟩ := exec_list c [e] s _ hdrop h.le h.st h.clk
           exact reachF_of_parts (t := exec c s e) h b c' d (by simp only [List.foldl] at a; omega) f
   | restore m => exact h
+  | observe => exact h
   | finalize => cases hop
 
 theorem applyAll_reachF (c : Cfg σ) : ∀ (ops : List Op) (s : State σ), (∀ op ∈ ops, op.noFinalize = true) →
@@ -269,6 +270,7 @@ theorem apply_reach (c : Cfg σ) (s : State σ) (op : Op) (h : Reach c s) : Reac
           obtain ⟨a, b, c', d, f⟩ := exec_list c [e] s _ hdrop h.le h.st h.clk
           exact reach_of_parts (t := exec c s e) h b c' d (by simp only [List.foldl] at a; omega) f
   | restore m => exact h
+  | observe => exact h
   | finalize =>
       simp only [apply, finalize]
       split
